@@ -44,12 +44,14 @@ pub struct Walker<'s> {
 }
 
 impl<'s> Walker<'s> {
-    /// `hi` extended over the whitespace that follows it in the source (1-based positions).
+    /// `hi` extended over the whitespace, closing brackets and separators that follow it in the
+    /// source (1-based positions): at such in-between positions the cursor belongs to neither
+    /// neighbour, and the implementation resolves them to the preceding construct.
     pub fn ext(&self, hi: u32) -> u32 {
         let b = self.src.as_bytes();
         let mut p = hi;
         // position p is the cursor after byte index p-2, i.e. before byte index p-1
-        while (p as usize) >= 1 && (p as usize - 1) < b.len() && b[p as usize - 1].is_ascii_whitespace() {
+        while (p as usize) >= 1 && (p as usize - 1) < b.len() && (b[p as usize - 1].is_ascii_whitespace() || b")]},|".contains(&b[p as usize - 1])) {
             p += 1;
         }
         p
@@ -75,7 +77,18 @@ impl<'s> Walker<'s> {
         v
     }
 
+    /// `lo` moved back over the whitespace, opening brackets and separators that precede it.
+    pub fn ext_back(&self, lo: u32) -> u32 {
+        let b = self.src.as_bytes();
+        let mut p = lo;
+        while p >= 2 && (p as usize - 2) < b.len() && (b[p as usize - 2].is_ascii_whitespace() || b"([{,|".contains(&b[p as usize - 2])) {
+            p -= 1;
+        }
+        p
+    }
+
     fn region(&mut self, name: &str, kind: &'static str, lo: u32, hi: u32, hole: Option<(u32, u32)>) {
+        let lo = self.ext_back(lo);
         self.info.regions.push(Region {
             name: name.to_string(),
             kind,
@@ -122,7 +135,7 @@ impl<'s> Walker<'s> {
 
     fn pattern(&mut self, p: &SpannedPattern<'_, Symbol>, parent: (u32, u32)) {
         match &p.value {
-            Pattern::As(_, q) => self.pattern(q, (lo(p.span), hi(p.span))),
+            Pattern::As(_, q) => self.pattern(q, parent),
             Pattern::Ident(id) => {
                 self.info
                     .idents
@@ -130,7 +143,7 @@ impl<'s> Walker<'s> {
             }
             Pattern::Constructor(_, args) => {
                 for a in &**args {
-                    self.pattern(a, (lo(p.span), hi(p.span)));
+                    self.pattern(a, parent);
                 }
             }
             Pattern::Tuple { elems, .. } => {
@@ -139,7 +152,7 @@ impl<'s> Walker<'s> {
                     self.info.constructs.push("pattern-unit");
                 }
                 for a in &**elems {
-                    self.pattern(a, (lo(p.span), hi(p.span)));
+                    self.pattern(a, parent);
                 }
             }
             Pattern::Record { fields, .. } => {
@@ -147,7 +160,7 @@ impl<'s> Walker<'s> {
                 self.info.field_ctx.push((lo(p.span), hi(p.span)));
                 for f in &**fields {
                     if let PatternField::Value { value: Some(q), .. } = f {
-                        self.pattern(q, (lo(p.span), hi(p.span)));
+                        self.pattern(q, parent);
                     }
                 }
             }
@@ -220,6 +233,13 @@ impl<'s> Walker<'s> {
                 self.info.constructs.push("projection");
                 let end = self.ext(ehi);
                 self.info.field_ctx.push((hi(inner.span), end));
+                if let Expr::Projection(_, _, typ) = &e.value {
+                    if hi(inner.span) + 1 <= ehi {
+                        self.info
+                            .idents
+                            .push((hi(inner.span) + 1, ehi, typ.to_string(), "field"));
+                    }
+                }
                 self.expr(inner);
             }
             Expr::Array(a) => {
